@@ -105,6 +105,7 @@ typedef struct {
 
 extern const char *src_names[];
 int init_src(m_mod_t *mod, m_src_types t);
+void unpoll_src(ev_src_t *src);
 int register_mod_src(m_mod_t *mod, m_src_types type, const void *src_data,
                  m_src_flags flags, const void *userptr);
 int deregister_mod_src(m_mod_t *mod, m_src_types type, void *src_data);
